@@ -32,6 +32,11 @@ pub struct Plan {
     /// images [chunk*per, chunk*per+per) of the enumeration
     pub chunk: u64,
     pub per: u64,
+    /// with `fork`: the side block arrives BEFORE the main chain's block of the same height, so the node
+    /// first follows the side branch and the main chain wins by a reorganisation (its block at that height
+    /// was received while it was not the longest chain)
+    #[serde(default)]
+    pub fork_first: bool,
 }
 
 fn gen(seed: u64, index: u64, tier: Tier) -> Plan {
@@ -52,6 +57,7 @@ fn gen(seed: u64, index: u64, tier: Tier) -> Plan {
         prune_after: *rng.pick(&[2u64, 4, 8]),
         chunk,
         per,
+        fork_first: rng.chance(1, 2),
     }
 }
 
@@ -83,7 +89,7 @@ impl Scenario for C12 {
     fn meta(&self) -> Meta {
         Meta {
             level: "fault_enumeration",
-            rule: "history = producer chain over genesis period 3..6 (rebroadcasts, pruning at depth 2/4/8, purge at 2x genesis period), optionally a 2-block side fork, delivered block by block to a real full node (consensus path: mempool queue -> add_blocks_from_mempool -> block file + wallet file writes, purge removes); the simulated disk journals every operation. Crash images = every journal prefix k x tear class of operation k in {absent, created-empty, cut inside the header, half, all-but-last-byte, complete} (process dies, page cache survives: completed writes are durable). Twelve consecutive run indices enumerate the images of one history in chunks of 24. For each image a brand-new node runs the real start-up (Wallet::load, on_init with delete_old_blocks as drawn). Oracle: start-up does not panic; the restarted tip is a block the node had been given before the crash point; its in-window spendable set equals the reference ledger at that tip and the conservation equation holds; after a clean shutdown (full journal) the tip equals the pre-shutdown tip; the node then adopts the next three blocks of the chain. The start-up's own storage operations are journalled as well: for every image one of them (seeded) is the point of a second crash with a seeded tear class, and a third start-up must again come up without panic on a known tip. After the recovery and the three further blocks a clean shutdown and another start-up must come up on exactly that extended tip. distinct_nontrivial = distinct (history, prefix, tear class) restarted.",
+            rule: "history = producer chain over genesis period 3..6 (rebroadcasts, pruning at depth 2/4/8, purge at 2x genesis period), optionally a side block that either stays a stored side branch or arrives first (so that the main chain later wins by a reorganisation through a block received while it was not the longest), delivered block by block to a real full node (consensus path: mempool queue -> add_blocks_from_mempool -> block file + wallet file writes, purge removes); the simulated disk journals every operation. Crash images = every journal prefix k x tear class of operation k in {absent, created-empty, cut inside the header, half, all-but-last-byte, complete} (process dies, page cache survives: completed writes are durable). Twelve consecutive run indices enumerate the images of one history in chunks of 24. For each image a brand-new node runs the real start-up (Wallet::load, on_init with delete_old_blocks as drawn). Oracle: start-up does not panic; the restarted tip is a block the node had been given before the crash point; its in-window spendable set equals the reference ledger at that tip and the conservation equation holds; after a clean shutdown (full journal) the tip equals the pre-shutdown tip; the node then adopts the next three blocks of the chain. The start-up's own storage operations are journalled as well: for every image one of them (seeded) is the point of a second crash with a seeded tear class, and a third start-up must again come up without panic on a known tip. After the recovery and the three further blocks a clean shutdown and another start-up must come up on exactly that extended tip. distinct_nontrivial = distinct (history, prefix, tear class) restarted.",
             real: &["ConsensusThread::on_init", "Storage::load_block_name_list/load_blocks_from_disk/write_block_to_disk/delete_block_from_disk", "Wallet::load/save", "Blockchain::add_blocks_from_mempool/add_block/delete_blocks/prune", "Block::deserialize_from_net/generate"],
             stubs: &["SimDisk journal + torn-write images (write_value = truncate+write, no fsync/rename, as RustIOHandler)", "SimConfig", "no network"],
             assumptions: &["crash model = process death (no lost un-synced writes); the power-loss model is not demanded by the property", "write errors are not injected (write_block_to_disk panics by design)"],
@@ -172,7 +178,13 @@ impl Scenario for C12 {
         let mut deliveries: Vec<BlockRec> = vec![];
         for (i, rec) in c.recs[..=plan.n_blocks].iter().enumerate() {
             deliveries.push(rec.clone());
-            if i == plan.n_blocks - 1 {
+            if !plan.fork_first && i == plan.n_blocks - 1 {
+                for s in &side {
+                    deliveries.push(s.clone());
+                }
+            }
+            if plan.fork_first && i + 2 == plan.n_blocks {
+                // the side block is a child of block n_blocks-2 and arrives right after it
                 for s in &side {
                     deliveries.push(s.clone());
                 }
